@@ -101,5 +101,24 @@ def runPerYearN (nv : α) (corr : List α) (files : Nat → Option (List (Nat ×
     Option (List (DayOut (Day α))) :=
   runPerYear (fun y => (files y).map (normLines nv corr y)) anjahr beginn itag ndays
 
+/-- `hasVERD` / `hasSUND` of the run's weather store once the year files of `anjahr … year` have been read: `WetterK`
+raises a flag when it sees a value that is not the missing-value code and nothing lowers it (weather_input.go:165-171). -/
+def seenOptional (nv : α) (files : Nat → Option (List (Nat × Day α))) (anjahr year : Nat) : Bool × Bool :=
+  ((List.range (year + 1 - anjahr)).map (· + anjahr)).foldl (fun acc y =>
+    match files y with
+    | none => acc
+    | some ls => (acc.1 || ls.any (fun l => !(l.2.verd == nv)), acc.2 || ls.any (fun l => !(l.2.sund == nv)))) (false, false)
+
+/-- `LoadYear` copies VERD / SUND into the model's day arrays only while the flag is up (weather_input.go:732-737); the
+arrays start at zero. -/
+def loadOptional (has : Bool × Bool) (d : Day α) : Day α :=
+  { d with verd := if has.1 then d.verd else 0, sund := if has.2 then d.sund else 0 }
+
+/-- Layout 0 as the model's day arrays see it: `runPerYearN` with the optional columns gated by the has-column flags. -/
+def runPerYearL (nv : α) (corr : List α) (files : Nat → Option (List (Nat × Day α))) (anjahr beginn itag ndays : Nat) :
+    Option (List (DayOut (Day α))) :=
+  (runPerYearN nv corr files anjahr beginn itag ndays).map fun ds =>
+    ds.map fun d => { d with val := d.val.map (loadOptional (seenOptional nv files anjahr (1900 + d.j))) }
+
 end
 end Hermes.DayLoop
